@@ -232,6 +232,9 @@ func runC02(c *core.Ctx) {
 	c.Doc("C02.opaque", "opaque values: written as signature + stored bytes; stored bytes are what the reader returned", 2)
 	ruleOpaque(c)
 
+	c.Doc("C02.constructors", "signature constructors (the readers opaque values are consumed with): letter, reader width, Go type agree; object references use one signature for reader and type", 11)
+	ruleConstructorsAs(c, derivePrims(c), "C02.constructors")
+
 	c.Doc("C02.limits", "size-limit comparisons accept the limit itself (encoder/decoder/reader agree)", 8)
 	ruleLimitComparisons(c, "C02.limits")
 }
